@@ -328,10 +328,60 @@ TGlue ==
      /\ \A k \in 1..Len(o) : Ev.out[k].pi = o[k].pi /\ Ev.out[k].r = o[k].r
   /\ UNCHANGED <<G, cfg, pl, fps>> /\ l' = l + 1
 
+TSubst == IsEv("Subst") /\ NoExc /\ UNCHANGED <<G, cfg, pl, fps>> /\ l' = l + 1
+
+\* C02: a received stack secret is accepted iff its index component is a bijection on 0..n-1
+TImportSS ==
+  /\ IsEv("ImportSS") /\ NoExc
+  /\ LET n == Len(Ev.pi) IN
+     Ev.res = (n >= 1 /\ {Ev.pi[k] : k \in 1..n} = 0..(n - 1))
+  /\ UNCHANGED <<G, cfg, pl, fps>> /\ l' = l + 1
+
+\* ---- cut-and-choose proof of a shuffle (TMCG_ProveStackEquality / TMCG_VerifyStackEquality), kappa rounds
+IsShift(ss) == \A k \in 2..Len(ss) : ss[k].pi = (ss[1].pi + (k - 1)) % Len(ss)
+Cards(s) == [k \in 1..Len(s) |-> Card2(s[k])]
+\* the stack the prover committed to with the value com (the hash is taken over the exported stack)
+Committed(com) == LET c == CHOOSE k \in 1..Len(Ev.hp) : "stack" \in DOMAIN Ev.hp[k] /\ Ev.hp[k].out.id = com.id
+                  IN Cards(Ev.hp[c].stack)
+HasCommitted(com) == \E k \in 1..Len(Ev.hp) : "stack" \in DOMAIN Ev.hp[k] /\ Ev.hp[k].out.id = com.id
+TCC ==
+  /\ IsEv("CC")
+  /\ "crash" \notin DOMAIN Ev          \* whatever the prover sends, the verifier must survive it (C12)
+  /\ NoExc
+  /\ LET vf == pl[Ev.j]  n == Len(Ev.s)  kap == Ev.kappa
+         pre == Len(Ev.s) = Len(Ev.s2) /\ \A k \in 1..Len(Ev.s2) : Member(G, Ev.s2[k][1]) /\ Member(G, Ev.s2[k][2])
+         base(r) == IF Ev.bits[r] = 1 THEN Cards(Ev.s2) ELSE Cards(Ev.s)
+         sizeok(r) == r <= Len(Ev.rounds) /\ Len(Ev.rounds[r].rev) = n /\ n >= 1
+         mixed(r) == MixSpec(vf.h, base(r), Ev.rounds[r].rev)
+         ok(r) == /\ sizeok(r)
+                  /\ HasCommitted(Ev.rounds[r].com) /\ mixed(r) = Committed(Ev.rounds[r].com)
+                  /\ (Ev.cyclic => IsShift(Ev.rounds[r].rev))
+         reached == IF pre THEN {r \in 1..kap : \A r2 \in 1..(r - 1) : ok(r2)} ELSE {}
+         acc == pre /\ \A r \in 1..kap : ok(r)
+     IN
+     /\ Ev.res = acc
+     \* the verifier announces kappa and then one challenge bit per round it reaches - the dictated coins
+     /\ Len(Ev.vout) = 1 + Cardinality(reached) /\ Ev.vout[1] = kap
+     /\ \A r \in reached : Ev.vout[r + 1] = Ev.bits[r]
+     \* it decides by hashing exactly the re-mixed stack (C05)
+     /\ \A r \in reached : sizeok(r) =>
+            \E k \in 1..Len(Ev.h) : "stack" \in DOMAIN Ev.h[k] /\ Cards(Ev.h[k].stack) = mixed(r)
+     \* C03: an honest proof of a true statement is accepted for every coin string
+     /\ (Ev.mode = "honest" /\ "ss" \in DOMAIN Ev /\ pl[Ev.i].h = vf.h
+           /\ Len(Ev.ss) = n /\ MixSpec(vf.h, Cards(Ev.s), Ev.ss) = Cards(Ev.s2) /\ (Ev.cyclic => IsShift(Ev.ss))) => acc
+     \* C04: a prover who prepared for the guessed string is accepted for that string ...
+     /\ (Ev.mode = "guess" /\ pre /\ pl[Ev.i].h = vf.h /\ Ev.bits = Ev.guess) => acc
+     \* ... and, the statement being false, for no other (the types under the secret keys differ)
+     /\ (Ev.mode = "guess" /\ pre /\ acc /\ kap > 0 /\ Ev.bits # Ev.guess) =>
+            \E pi \in {f \in [1..n -> 1..n] : \A a, b \in 1..n : a # b => f[a] # f[b]} :
+               \A k \in 1..n : TrueType(G, Card2(Ev.s2[k]), vf.X, NT) = TrueType(G, Card2(Ev.s[pi[k]]), vf.X, NT)
+  /\ UNCHANGED <<G, cfg, pl, fps>> /\ l' = l + 1
+
 TStack == IsEv("Stack") /\ NoExc /\ UNCHANGED <<G, cfg, pl, fps>> /\ l' = l + 1
 
 TNext == TReset \/ TGenKey \/ TPubKey \/ TUpdKey \/ TRemKey \/ TFin \/ TOpen \/ TPriv \/ TMask \/ TPMask \/ TPPriv
          \/ TVMask \/ TVPriv \/ TSelf \/ TPSec \/ TVSec \/ TType \/ TSSec \/ TMix \/ TGlue \/ TStack
+         \/ TSubst \/ TImportSS \/ TCC
 TSpec == TInit /\ [][TNext]_vars
 
 \* C08: the common key a player holds is g^(sum of the key shares it accepted) - a sum, hence independent of
